@@ -62,10 +62,14 @@ package eni
 //@ guard call IP.Dispose in Dispose: recv.podID == ""
 //@ guard call IP.Dispose in load: recv.podID == ""
 
+//@ for C06 C15
+//@ # pool sets hold no nil entry (assumed on read, proved where entries are written)
+//@ invariant map netip.Addr *IP: value != nil
 //@ func Set.Idles
 //@   modifies nothing
-//@   ensures forall i int :: 0 <= i && i < len(result) ==> result[i].podID == ""
-//@   loop 1 invariant forall i int :: 0 <= i && i < len(result) ==> result[i].podID == ""
+//@   ensures forall i int :: 0 <= i && i < len(result) ==> result[i] != nil && result[i].podID == ""
+//@   loop 1 invariant forall i int :: 0 <= i && i < len(result) ==> result[i] != nil && result[i].podID == ""
+//@ for C06
 
 //@ func Set.InUse
 //@   modifies nothing
@@ -145,3 +149,11 @@ package eni
 //@ # ---- restart: a stored binding is re-applied to the entry of its own address, in the set of its own family ----
 //@ guard call IP.Allocate#2 in load: recv == l.ipv4[ip] && arg0 == podID
 //@ guard call IP.Allocate#3 in load: recv == l.ipv6[ip] && arg0 == podID
+
+//@ for C15
+
+//@ # ---- pool start-up from stored records: no record (each names a pod, see daemon.getPodResources) makes load dereference nil ----
+//@ func Local.load
+//@   requires l != nil && l.factory != nil && l.ipv4 != nil && l.ipv6 != nil
+//@   requires forall i int :: 0 <= i && i < len(podResources) ==> podResources[i].PodInfo != nil
+//@   panics
